@@ -861,14 +861,14 @@ theorem rerunEarly_of_not_early (rs : List Remedy) (a : ReqAct) (h : a.isEarly =
     rerunEarly rs a = a := by
   cases a <;> simp_all [rerunEarly, ReqAct.isEarly]
 
-theorem legacyReqHolds_legacyReq (H0 : Hdrs) (rs : List Remedy) :
-    legacyReqHolds H0 rs (encodeReq (legacyReq H0 rs)) = true := by
+theorem legacyReqHolds_legacyReq (env : ReqEnv) (rs : List Remedy) :
+    legacyReqHolds env rs (encodeReq (legacyReq env rs)) = true := by
   unfold legacyReqHolds legacyReq legacyFoldReq
   simp only [decodeReq_encodeReq]
-  cases hfe : firstEarly (scriptReq { hdrs := H0 } rs) with
+  cases hfe : firstEarly (scriptReq env rs) with
   | none =>
     have hno := firstEarly_none _ hfe
-    have hE : (foldReq (scriptReq { hdrs := H0 } rs)).isEarly = false := by
+    have hE : (foldReq (scriptReq env rs)).isEarly = false := by
       show (List.foldl reqPrio .noop _).isEarly = false
       rw [foldl_reqPrio_isEarly]
       have h0 : ReqAct.noop.isEarly = false := rfl
@@ -878,7 +878,7 @@ theorem legacyReqHolds_legacyReq (H0 : Hdrs) (rs : List Remedy) :
     exact reqFoldOk_eraseRm _ _ (reqFoldOk_sanitized _)
   | some e =>
     obtain ⟨pre, post, hsplit, hpre, he⟩ := firstEarly_some _ e hfe
-    have hf : foldReq (scriptReq { hdrs := H0 } rs) = e := by
+    have hf : foldReq (scriptReq env rs) = e := by
       rw [hsplit]; exact foldl_reqPrio_first_early .noop pre post e rfl hpre he
     rw [hf]
     cases e with
@@ -888,6 +888,23 @@ theorem legacyReqHolds_legacyReq (H0 : Hdrs) (rs : List Remedy) :
       intro k
       rw [lookup_sanitize, rerun_foldl_eq, foldl_merge_lookup, lastWriter_sanitize]
     | _ => simp [ReqAct.isEarly] at he
+
+/-- One legacy transaction against the shared plugins: a request (its headers, the remedies) or a
+    provider response (status, body, headers, the remedies). -/
+inductive Txn where
+  | req (h : Hdrs) (rs : List Remedy)
+  | resp (status : Int) (body : String) (h : Hdrs) (rs : List Remedy)
+
+/-- The judge predicate over a sequence of legacy transactions run by the model against the same
+    plugins; the plugin state (authentication caches, response cache) is threaded by
+    `envAfter` / `envAfterResp`. -/
+def legacySeqHolds (st : ReqEnv) : List Txn → Bool
+  | [] => true
+  | .req h rs :: ts =>
+    let env : ReqEnv := { st with hdrs := h }
+    legacyReqHolds env rs (encodeReq (legacyReq env rs)) && legacySeqHolds (envAfter env rs) ts
+  | .resp s b h rs :: ts =>
+    legacyRespHolds s rs (encodeResp (legacyResp s rs)) && legacySeqHolds (envAfterResp st s b h rs) ts
 
 /-! ### the observable history of a model run (what `lvdriver_c07 run` prints, step by step) -/
 
